@@ -49,6 +49,19 @@ M = [
  ("leaf_links_line_of_prev", "crates/liwe/src/graph/builder.rs",
   "        let line_id = self.graph.add_line(block);\n        let new_id = self.graph.new_node_id();\n        self.add_node(GraphNode::new_leaf(self.id, new_id, line_id));",
   "        let line_id = self.graph.add_line(block);\n        let new_id = self.graph.new_node_id();\n        self.add_node(GraphNode::new_leaf(self.id, new_id, line_id.saturating_sub(1)));", {"C01": 1}),
+ ("append_from_visitor_sets_insert", "crates/liwe/src/graph/builder.rs",
+  "    fn append_from_visitor<'b>(&mut self, iter: impl NodeIter<'b>) {\n        self.insert = false;", "    fn append_from_visitor<'b>(&mut self, iter: impl NodeIter<'b>) {\n        self.insert = true;", {"C20": 1}),
+ ("insert_from_iter_child_as_sibling", "crates/liwe/src/graph/builder.rs",
+  "                iter.child().map(|child| {\n                    builder.insert_from_iter(child);\n                });\n                iter.next().map(|next| {\n                    builder.append_from_visitor(next);\n                });\n            });\n        });\n    }\n\n    pub fn link_node_id",
+  "                iter.child().map(|child| {\n                    builder.append_from_visitor(child);\n                });\n                iter.next().map(|next| {\n                    builder.append_from_visitor(next);\n                });\n            });\n        });\n    }\n\n    pub fn link_node_id", {"C20": 1}),
+ ("from_markdown_keeps_stale_metadata", "crates/liwe/src/graph.rs",
+  "        } else {\n            self.metadata.remove(&key);\n        }\n\n        let mut build_key = self.build_key(&key);", "        }\n\n        let mut build_key = self.build_key(&key);", {"C01": 1}),
+ ("index_node_skips_quote_next", "crates/liwe/src/graph/index.rs",
+  "                quote.next_id().map(|child_id| {\n                    self.index_node(graph, child_id);\n                });\n", "", {"C05": 1, "C04": 1}),
+ ("block_quote_leaves_insert_set", "crates/liwe/src/graph/sections_builder.rs",
+  "                self.builder.quote();\n                self.set_lines_range(quote.line_range);", "                self.builder.quote();\n                self.builder.set_insert(true);\n                self.set_lines_range(quote.line_range);", {"C01": 1, "C07": 1}),
+ ("update_key_skips_blank", "crates/liwe/src/graph.rs",
+  "        self.from_markdown(key, content, MarkdownReader::new());\n\n        self", "        if !content.is_empty() {\n            self.from_markdown(key, content, MarkdownReader::new());\n        }\n\n        self", {"C20": 1, "C04": 1}),
  # benign refactorings: must not alarm
  ("benign_rename_local", "crates/liwe/src/graph/sections_builder.rs",
   "let mut ranges: Vec<Range> = vec![];", "let mut ranges: Vec<Range> = Vec::new();", {"C07": 0}),
